@@ -658,6 +658,9 @@ func (s *Sim) latency(a, b *Node, st Stream) int64 {
 		if d <= 0 {
 			d = sc.LatBase + sc.LatJitter
 		}
+		if d <= 0 {
+			return 0 // a zero-latency network: delivered at the very instant it was sent
+		}
 		return 1 + s.tape.Range(st, 0, d-1)
 	}
 	l := sc.LatBase
